@@ -201,6 +201,23 @@ func diagWorker(req N) (resp N) {
 			events = append(events, ev)
 		}
 	}
+	// constructs that are cut off right after a token spanning several lines (a raw string): the end-of-input
+	// error must still name a position inside the text and quote that very line
+	tails := []string{"print(`select *\nfrom t`", "xq := [1, `a\nb`", "fq(`a\n\nb`,", "mq := {\"k\": `a\nb`", "yq := (`a\nb`", "print(`a\nb` +",
+		"zq := `a\nb`[", "if `a\nb` {", "print(`one\ntwo\nthree`, 1"}
+	if n := int(req["n"].(float64)); n > 0 {
+		t := tails[rnd.Intn(len(tails))]
+		base := r.Source()
+		if !strings.HasSuffix(base, "\n") {
+			base += "\n"
+		}
+		if ev := diagnose(base + t); ev != nil {
+			events = append(events, ev)
+		}
+		if ev := diagnose(base + t + "\n"); ev != nil {
+			events = append(events, ev)
+		}
+	}
 	for m := 0; m < int(req["n"].(float64)); m++ {
 		src := relayout(ast.Mutate(r, rnd), rnd)
 		ev := diagnose(src)
